@@ -397,3 +397,25 @@ func init() {
 		return "flushed=" + show(flushed) + ";drained=" + show(drained)
 	}
 }
+
+func init() {
+	// parseData: one group of packets through the unit parser (PSI / PES dispatch, CRC check, toData)
+	ops["parseData"] = func(c *Case) string {
+		var ps []*astits.Packet
+		if err := decode(c.Raw["packets"], &ps); err != nil {
+			panic(err)
+		}
+		pm := map[uint16]uint16{}
+		for _, p := range c.ints("pmtPIDs") {
+			pm[uint16(p)] = 1
+		}
+		ds, err := astits.VerifParseData(ps, nil, pm)
+		if err != nil {
+			return "err"
+		}
+		if ds == nil {
+			ds = []*astits.DemuxerData{}
+		}
+		return "ok:" + canon(ds)
+	}
+}
